@@ -56,8 +56,13 @@ func (g *Gen) useSpec(sf *specFn) {
 	if len(args) == 0 {
 		app = sf.smtName
 	}
-	body := e.specBlock(sf.decl.Body.List, sig.Results().At(0).Type())
-	ax := fmt.Sprintf("(= %s %s)", app, body)
+	ax := "true"
+	if sf.ct != nil && sf.ct.Trusted {
+		// abstract specification function (contract marked trusted): uninterpreted, constrained only by its ensures
+	} else {
+		body := e.specBlock(sf.decl.Body.List, sig.Results().At(0).Type())
+		ax = fmt.Sprintf("(= %s %s)", app, body)
+	}
 	if rf := rangeFact(sig.Results().At(0).Type(), app); rf != "" {
 		ax = fmt.Sprintf("(and %s %s)", ax, rf)
 	}
